@@ -10,7 +10,7 @@ use std::collections::HashMap;
 use std::io::{BufRead, BufReader, Write};
 use std::panic::{catch_unwind, AssertUnwindSafe};
 use std::path::PathBuf;
-use std::process::{Child, ChildStdin, ChildStdout, Command, Stdio};
+use std::process::{Child, ChildStdin, Command, Stdio};
 use walrus_rust::{FsyncSchedule, ReadConsistency, Walrus};
 
 /// payload byte i of payload number pid: never zero, cheap, position dependent
@@ -611,7 +611,7 @@ pub fn seg_main(args: &[String]) {
 struct Kid {
     child: Child,
     tx: ChildStdin,
-    rx: BufReader<ChildStdout>,
+    rx: std::sync::mpsc::Receiver<String>,
 }
 
 fn spawn(exe: &std::path::Path, dir: &PathBuf, mode: &str, backend: &str, sched: &str, reg: &[String], extra: &[(String, String)]) -> Kid {
@@ -643,7 +643,21 @@ fn spawn(exe: &std::path::Path, dir: &PathBuf, mode: &str, backend: &str, sched:
         .spawn()
         .expect("spawn seg");
     let mut tx = child.stdin.take().unwrap();
-    let rx = BufReader::new(child.stdout.take().unwrap());
+    // answers come through a channel so that the dispatcher can give up on an operation that never
+    // returns (a livelock in the engine must end the case, not the whole run)
+    let (ltx, rx) = std::sync::mpsc::channel::<String>();
+    let mut rd = BufReader::new(child.stdout.take().unwrap());
+    std::thread::spawn(move || loop {
+        let mut s = String::new();
+        match rd.read_line(&mut s) {
+            Ok(0) | Err(_) => break,
+            Ok(_) => {
+                if ltx.send(s.trim_end().to_string()).is_err() {
+                    break;
+                }
+            }
+        }
+    });
     for r in reg {
         writeln!(tx, "{}", r).unwrap();
     }
@@ -654,11 +668,21 @@ fn ask(k: &mut Kid, line: &str) -> String {
     if writeln!(k.tx, "{}", line).is_err() || k.tx.flush().is_err() {
         return "died".into();
     }
-    let mut s = String::new();
-    match k.rx.read_line(&mut s) {
-        Ok(0) | Err(_) => "died".into(),
-        Ok(_) => s.trim_end().to_string(),
+    match k.rx.recv_timeout(op_timeout()) {
+        Ok(s) => s,
+        Err(std::sync::mpsc::RecvTimeoutError::Disconnected) => "died".into(),
+        Err(std::sync::mpsc::RecvTimeoutError::Timeout) => {
+            let _ = k.child.kill();
+            "hang".into()
+        }
     }
+}
+
+/// how long one operation of a child lifetime may take before it is declared hung
+/// (WH_OP_TIMEOUT seconds; default 60, under valgrind 1800)
+fn op_timeout() -> std::time::Duration {
+    let dflt = if std::env::var("WH_VALGRIND").is_ok() { 1800 } else { 60 };
+    std::time::Duration::from_secs(std::env::var("WH_OP_TIMEOUT").ok().and_then(|v| v.parse().ok()).unwrap_or(dflt))
 }
 
 fn finish(mut k: Kid) -> String {
